@@ -1,6 +1,6 @@
 (* Correspondence for C01: compare the model of evolve(ca, T | pred, rule, r, memoize=False) with what
-   /repo returned on the same inputs: the array (values and shape) and, when recorded, the exact
-   (n, c, t) argument log of the rule. *)
+   /repo returned on the same inputs: the array (values, shape, dtype name), when recorded the exact
+   (n, c, t) argument log of the rule, and when recorded the caller's array after the call. *)
 From CPL Require Import Model.Base Model.Rules Model.Engine Model.Evolve1D.
 Local Open Scope Z_scope.
 
@@ -8,11 +8,26 @@ Local Open Scope Z_scope.
    binary places); assigning it into an integer automaton truncates toward zero *)
 Definition store_of (scale : Z) : Z -> Z := if scale =? 1 then store_id else fun q => Z.quot q scale.
 
-Definition observation := (list (list Z) * option (list call1))%type.
+(* the dtype of an array, by name; DOther = anything else (never equal to anything) *)
+Inductive dtype := DInt32 | DInt64 | DUInt8 | DUInt64 | DFloat64 | DOther.
+Definition dtype_eqb (a b : dtype) : bool :=
+  match a, b with
+  | DInt32, DInt32 | DInt64, DInt64 | DUInt8, DUInt8 | DUInt64, DUInt64 | DFloat64, DFloat64 => true
+  | _, _ => false
+  end.
+
+(* what /repo returned: the array, the rule's argument log (when recorded), the dtype of the array, and
+   (when recorded) the caller's array after the call *)
+Record observation := MkObs {
+  o_array : list (list Z);
+  o_log : option (list call1);
+  o_dtype : dtype;
+  o_after : option (list (list Z)) }.
 
 Inductive case :=
 | CEvolve (dyn : bool)                 (* timesteps = (lambda ca, t: t < T) instead of T *)
-          (scale : Z) (hist : list (list Z)) (T r : nat) (sp : rule_spec)
+          (scale : Z) (dt : dtype)      (* dtype of the automaton passed in *)
+          (hist : list (list Z)) (T r : nat) (sp : rule_spec)
           (obs : res observation).
 
 Definition model_run (dyn : bool) (scale : Z) (hist : list (list Z)) (T r : nat) (sp : rule_spec)
@@ -29,20 +44,30 @@ Definition model_run (dyn : bool) (scale : Z) (hist : list (list Z)) (T r : nat)
     | Raise e => Raise e
     end.
 
-Definition model_out (c : case) : res (list (list Z) * list call1) :=
-  match c with CEvolve dyn scale hist T r sp _ => model_run dyn scale hist T r sp end.
+(* array, log, dtype of the result (= the automaton's), the caller's array afterwards (= unchanged) *)
+Definition model_out (c : case) : res (list (list Z) * list call1 * dtype * list (list Z)) :=
+  match c with
+  | CEvolve dyn scale dt hist T r sp _ =>
+      match model_run dyn scale hist T r sp with
+      | Ok (out, lg) => Ok (out, lg, dt, hist)
+      | Raise e => Raise e
+      end
+  end.
 
 Definition call_eqb (a b : call1) : bool :=
   let '(n, c, t) := a in let '(n', c', t') := b in zlist_eqb n n' && Nat.eqb c c' && Nat.eqb t t'.
 
-Definition obs_eqb (m : list (list Z) * list call1) (o : observation) : bool :=
-  zgrid_eqb (fst m) (fst o) &&
-  match snd o with Some lg => list_eqb call_eqb (snd m) lg | None => true end.
+Definition obs_eqb (m : list (list Z) * list call1 * dtype * list (list Z)) (o : observation) : bool :=
+  let '(out, lg, dt, after) := m in
+  zgrid_eqb out (o_array o) &&
+  match o_log o with Some l => list_eqb call_eqb lg l | None => true end &&
+  dtype_eqb dt (o_dtype o) &&
+  match o_after o with Some a => zgrid_eqb after a | None => true end.
 
 Definition check_case (c : case) : bool :=
   match c with
-  | CEvolve dyn scale hist T r sp obs =>
-      match model_run dyn scale hist T r sp, obs with
+  | CEvolve dyn scale dt hist T r sp obs =>
+      match model_out c, obs with
       | Ok m, Ok o => obs_eqb m o
       | Raise _, Raise _ => true
       | _, _ => false
